@@ -172,10 +172,25 @@ def shares_request_path(t1, t2):
 def m_method_as_str(ex, args, callee):
     m = dv(args[0])
     if isinstance(m, Opaque) and m.tag == 'method': return m.payload
+    if isinstance(m, Opaque) and m.tag == 'const' and isinstance(m.payload, str) and re.search(r'Method::[A-Z]+$', m.payload): return m.payload.rsplit('::', 1)[1]
     if isinstance(m, Opaque) and m.tag == 'reqmethod':
         rq = m.payload
         return rq.methods[ex.branch([rq.mi == i for i in range(len(rq.methods))])]
     raise Unsupported(f'Method::as_str of {m!r}')
+
+
+def m_method_eq(ex, args, callee):
+    """http::Method equality is exact (case-sensitive) on the method token"""
+    names = []
+    for x in args[:2]:
+        x = dv(x)
+        if isinstance(x, Opaque) and x.tag == 'reqmethod': names.append(x.payload)
+        else: names.append(m_method_as_str(ex, [x], callee))
+    a, b = names
+    if isinstance(a, str) and isinstance(b, str): return a == b
+    rq, other = (a, b) if not isinstance(a, str) else (b, a)
+    if isinstance(other, str): return zor(*[rq.mi == i for i, m_ in enumerate(rq.methods) if m_ == other])
+    raise Unsupported('comparison of two symbolic methods')
 
 
 def m_route_path_to_segments_guard(ex, args, callee):
@@ -223,7 +238,8 @@ def m_fmt_format(ex, args, callee):
 
 
 ROUTER_MODELS = [
-    (r'Method::as_str$', m_method_as_str),
+    (r'Method::as_str$', m_method_as_str), (r'<(http::)?Method as ToString>::to_string$', m_method_as_str),
+    (r'<&?(http::)?Method as PartialEq(<&?(http::)?Method>)?>::(eq|ne)$', lambda ex, a, c: m_method_eq(ex, a, c) if c.endswith('eq') else znot(zbool(m_method_eq(ex, a, c)))),
     (r'^(router::)?input_path_to_segments$', m_input_path_to_segments, True),
     (r'HeaderMap::reserve$|HeaderMap::<.*>::reserve$', lambda ex, a, c: Tup([])),
     (r'str>::split::<char>$|str>::split::<\'_, char>$', m_str_split_char),
